@@ -1,12 +1,14 @@
-"""Contract for conditional._finalize (C07): the (predicate, rhs) list of every conditionally
-assigned target is folded into a select chain whose value is
+"""Contract for conditional._finalize (C07), taken from the property statement: for ANY number of
+conditional assignments (predicate_i, rhs_i) recorded for a target,
 
-    FOLD(0) = default (0 for a wire, the register's own value, or the `defaults` entry)
-    FOLD(k+1) = rhs_k if predicate_k else FOLD(k)
+    target == rhs_i          if predicate_i is 1        (i is unique: precondition below)
+    target == default        if no predicate is 1       (0 for a wire, the register's own value,
+                                                         or the `defaults` entry)
 
-for ANY number of branches; memory write ports likewise (enable default 0).  Together with the
-exclusion lemma (at most one predicate of a target is 1 - enforced by _check_and_add_pred_set)
-the target receives the rhs of its unique active branch, else its default (property statement)."""
+memory write ports likewise: address / data / enable of the active write, enable 0 when none is active.
+Precondition (what _check_and_add_pred_set enforces; bounded family): at most one predicate of a target
+is 1.  The contract does not prescribe HOW the value is built (select chain, and-or, ...): any structure
+that delivers the active branch's value verifies."""
 from pyvc.contract import Contract, register, ForInv
 from pyvc import hl as H
 from pyvc.hl import NS
@@ -18,13 +20,26 @@ def _ghost(fr):
     return fr.lookup('defaults_ghost') if False else None
 
 
+def _spec(g, k, v, X, dflt):
+    """the property statement for one target after the first k branches: v is the value X(i) of the branch
+    i < k whose predicate is 1 (unique by the exclusion check), else the default (None: unconstrained)"""
+    import z3
+    i = z3.Int('i!spec')
+    P = g['P']
+    cl = [z3.ForAll([i], z3.Implies(z3.And(0 <= i, i < k, P(i) != 0), v == X(i)))]
+    if dflt is not None:
+        cl.append(z3.Implies(z3.ForAll([i], z3.Implies(z3.And(0 <= i, i < k), P(i) == 0)), v == dflt))
+    return z3.And(*cl)
+
+
 def _fold_inv(I, fr, k):
-    """loop `for p, rhs in predlist`: result carries FOLD(k) at the target's width"""
+    """loop `for p, rhs in predlist`: result carries the value the property demands for the first k
+    branches, at the target's width"""
     import z3
     from pyvc.engine import SObj, Sym, term
     g = I._fin_ghost
     st = I.st
-    FOLD, P, R, Wl = g['FOLD'], g['P'], g['R'], g['Wl']
+    R, Wl = g['R'], g['Wl']
     phase = getattr(I, 'inv_phase', None)
     if phase == 'init':
         # the accumulator is THE loop-carried local, whatever it is called
@@ -35,19 +50,18 @@ def _fold_inv(I, fr, k):
         g['acc'] = I.loop_carried[0]
     acc = g['acc']
     if phase in ('assume', 'exit'):
-        st.assume(FOLD(z3.IntVal(0)) == g['D0'])
         kk = z3.simplify(k)
-        if phase == 'assume':
-            st.assume(FOLD(kk + 1) == z3.If(P(kk) != 0, R(kk), FOLD(kk)))
         if st.branch(kk == 0):
             fr.env[acc] = g['init_result']
         else:
-            fr.env[acc] = W.new_wire(I, Wl, FOLD(kk), hint='fold')
-            st.assume(z3.And(FOLD(kk) >= 0, FOLD(kk) < H.pow2(Wl)))
+            v = z3.Int('acc!%d' % next(st.n))
+            fr.env[acc] = W.new_wire(I, Wl, v, hint='acc')
+            st.assume(z3.And(v >= 0, v < H.pow2(Wl)))
+            st.assume(_spec(g, kk, v, R, g['D0']))
         return []
     res = fr.env.get(acc)
     if phase == 'init':
-        # the value the fold starts from is the documented default
+        # the value the loop starts from is the documented default
         if isinstance(res, SObj):
             ok = z3.And(W.den_of(res) == g['D0'], W.bw_of(res) == Wl) if res.fields.get('_den') is not None \
                 else z3.BoolVal(False)
@@ -61,11 +75,13 @@ def _fold_inv(I, fr, k):
     if not isinstance(res, SObj) or res.fields.get('_den') is None:
         return [('result is a driven wire', z3.BoolVal(False))]
     return [('result has the width of the target', W.bw_of(res) == Wl),
-            ('result == FOLD(k+1)', W.den_of(res) == FOLD(z3.simplify(k)))]
+            ('result == value of the active branch among the first k+1, else the default',
+             _spec(g, z3.simplify(k), W.den_of(res), R, g['D0']))]
 
 
 def _mem_inv(I, fr, k):
-    """loop over the 2nd.. conditional writes of a memory: combined_{enable,addr,data} carry the folds"""
+    """loop over the 2nd.. conditional writes of a memory: the three accumulators carry address / data /
+    enable of the active branch among those seen so far; enable 0 when none is active"""
     import z3
     from pyvc.engine import SObj
     g = I._fin_ghost
@@ -85,39 +101,31 @@ def _mem_inv(I, fr, k):
                               'accumulators (function shape changed; contract needs re-anchoring)' % (I.loop_carried,))
         g['roles'] = roles
     roles = g['roles']
-    names = ((roles['E'], 'FE', 'E', 1), (roles['A'], 'FA', 'A', g['AW']), (roles['D'], 'FD', 'D', g['DW']))
+    names = ((roles['E'], 'E', 1, z3.IntVal(0)), (roles['A'], 'A', g['AW'], None), (roles['D'], 'D', g['DW'], None))
     label = {roles['E']: 'combined_enable', roles['A']: 'combined_addr', roles['D']: 'combined_data'}
-    kk = z3.simplify(k)       # k iterations of the [1:] loop done  <=>  k+1 list elements folded
+    kk = z3.simplify(k)       # k iterations of the [1:] loop done  <=>  k+1 list elements seen
     if phase in ('assume', 'exit'):
-        if phase == 'assume':
-            for var, F, X, w in names:
-                st.assume(g[F](kk + 2) == z3.If(g['P'](kk + 1) != 0, g[X](kk + 1), g[F](kk + 1)))
         if st.branch(kk == 0):
-            for var, F, X, w in names:
+            for var, X, w, dflt in names:
                 fr.env[var] = g['init_' + var]
         else:
-            for var, F, X, w in names:
-                fr.env[var] = W.new_wire(I, w, g[F](kk + 1), hint=var)
-                st.assume(z3.And(g[F](kk + 1) >= 0, g[F](kk + 1) < H.pow2(w)))
+            for var, X, w, dflt in names:
+                v = z3.Int('%s!%d' % (label[var], next(st.n)))
+                fr.env[var] = W.new_wire(I, w, v, hint=var)
+                st.assume(z3.And(v >= 0, v < H.pow2(w)))
+                st.assume(_spec(g, kk + 1, v, g[X], dflt))
         return []
     if phase == 'init':
         # remember what the first element produced
-        for var, F, X, w in names:
+        for var, X, w, dflt in names:
             g['init_' + var] = fr.env.get(var)
-        out = []
-        for var, F, X, w in names:
-            v = fr.env.get(var)
-            if not isinstance(v, SObj) or v.fields.get('_den') is None:
-                return [('first conditional write builds driven wires', z3.BoolVal(False))]
-            out.append(('%s after the first write == fold(1)' % label[var], W.den_of(v) == g[F](z3.IntVal(1))))
-            out.append(('%s width' % label[var], W.bw_of(v) == w))
-        return out
     out = []
-    for var, F, X, w in names:
+    for var, X, w, dflt in names:
         v = fr.env.get(var)
         if not isinstance(v, SObj) or v.fields.get('_den') is None:
-            return [('combined wires are driven', z3.BoolVal(False))]
-        out.append(('%s == fold(k+2)' % label[var], W.den_of(v) == g[F](kk + 1)))
+            return [('conditional writes build driven wires', z3.BoolVal(False))]
+        out.append(('%s == value of the active write among those seen, enable 0 if none' % label[var],
+                    _spec(g, kk + 1, W.den_of(v), g[X], dflt)))
         out.append(('%s keeps its width' % label[var], W.bw_of(v) == w))
     return out
 
@@ -125,7 +133,10 @@ def _mem_inv(I, fr, k):
 @register
 class Finalize(Contract):
     module, qualname, props = 'pyrtl.conditional', '_finalize', ('C07',)
-    invariants = {('_finalize', 1): ForInv(_mem_inv), ('_finalize', 2): ForInv(_fold_inv)}
+    # the fold invariant is offered to every later loop of the function: a second loop over the branch list
+    # (e.g. a special case for some targets) must establish the same fold
+    invariants = {('_finalize', 1): ForInv(_mem_inv), ('_finalize', 2): ForInv(_fold_inv),
+                  ('_finalize', 3): ForInv(_fold_inv), ('_finalize', 4): ForInv(_fold_inv)}
 
     def cases(self):
         return ['wire:nodefault', 'wire:default', 'reg:nodefault', 'reg:default', 'mem']
@@ -143,6 +154,10 @@ class Finalize(Contract):
         g = dict(P=z3.Function('P!%d' % n, Int, Int), N=z3.Int('N!%d' % n))
         N = g['N']
         I._fin_ghost = g
+        ii, jj = z3.Ints('i!ex j!ex')
+        # exclusion (established by _check_and_add_pred_set): at most one predicate of the target is 1
+        st.assume(z3.ForAll([ii, jj], z3.Implies(z3.And(0 <= ii, ii < jj, jj < N),
+                                                 z3.Not(z3.And(g['P'](ii) != 0, g['P'](jj) != 0)))))
         cache = {}
         kind = case.split(':')[0]
         defaults = {}
@@ -150,7 +165,7 @@ class Finalize(Contract):
             Wl = z3.Int('Wl!%d' % n)
             st.assume(Wl >= 1)
             st.assume(N >= 1)          # a target is in _predicate_map only once something was assigned to it
-            g.update(FOLD=z3.Function('FOLD!%d' % n, Int, Int), R=z3.Function('R!%d' % n, Int, Int), Wl=Wl)
+            g.update(R=z3.Function('R!%d' % n, Int, Int), Wl=Wl)
             if kind == 'reg':
                 q = z3.Int('Q!%d' % n)
                 st.assume(z3.And(q >= 0, q < H.pow2(Wl)))
@@ -183,7 +198,7 @@ class Finalize(Contract):
         else:
             AW, DW = z3.Int('AW!%d' % n), z3.Int('DW!%d' % n)
             st.assume(z3.And(AW >= 1, DW >= 1, N >= 1))
-            for f in ('FE', 'FA', 'FD', 'E', 'A', 'D'):
+            for f in ('E', 'A', 'D'):
                 g[f] = z3.Function('%s!%d' % (f, n), Int, Int)
             g.update(AW=AW, DW=DW)
             lhs = SObj('MemBlock', {})
@@ -204,9 +219,6 @@ class Finalize(Contract):
             plist = SSeq(N, elem, 'list')
             z = z3.IntVal
             g['elem0'] = elem(z(0))
-            st.assume(g['FE'](z(1)) == z3.If(g['P'](z(0)) != 0, g['E'](z(0)), 0))
-            st.assume(g['FA'](z(1)) == g['A'](z(0)))
-            st.assume(g['FD'](z(1)) == g['D'](z(0)))
         I.hooks['global:_predicate_map'] = {lhs: plist}
         return NS(args=[defaults], lhs=lhs, kind=kind, g=g, I=I)
 
@@ -218,18 +230,20 @@ class Finalize(Contract):
         if ns.kind == 'wire':
             if lhs.fields.get('_den') is None:
                 return [('the target is driven', z3.BoolVal(False))]
-            return [('target == FOLD(number of branches)', W.den_of(lhs) == g['FOLD'](N))]
+            return [('target == rhs of the active branch, else the default', _spec(g, N, W.den_of(lhs), g['R'], g['D0']))]
         if ns.kind == 'reg':
             nx = lhs.fields.get('_next')
             if nx is None:
                 return [('the register next value is driven', z3.BoolVal(False))]
             from pyvc.engine import term
-            return [('register.next == FOLD(number of branches)', term(nx) == g['FOLD'](N))]
+            return [('register.next == rhs of the active branch, else the default',
+                     _spec(g, N, term(nx), g['R'], g['D0']))]
         b = g.get('built')
         if b is None or len(b) != 3 or not all(isinstance(x, SObj) and x.fields.get('_den') is not None for x in b):
             return [('one write port is built from three driven wires', z3.BoolVal(False))]
         a, d, e = b
-        return [('write address == fold of the branch addresses', W.den_of(a) == g['FA'](N)),
-                ('write data == fold of the branch data', W.den_of(d) == g['FD'](N)),
-                ('write enable == fold of the branch enables (default 0)', W.den_of(e) == g['FE'](N)),
+        return [('write address == address of the active write', _spec(g, N, W.den_of(a), g['A'], None)),
+                ('write data == data of the active write', _spec(g, N, W.den_of(d), g['D'], None)),
+                ('write enable == enable of the active write, 0 when no branch is active',
+                 _spec(g, N, W.den_of(e), g['E'], z3.IntVal(0))),
                 ('port widths', H.And(W.bw_of(a) == g['AW'], W.bw_of(d) == g['DW'], W.bw_of(e) == 1))]
